@@ -1065,4 +1065,84 @@ class ImportIntoProject(Contract):
         ex.oblige(self.oname("ensures:each_copy_is_reported_as_(source,_destination)"), z3.BoolVal(bool(out_ok)), note=repr(g["out"]))
 
 
-CONTRACTS += [PrepareImport(), ImportIntoProject()]
+class ProjectImportFrom(Contract):
+    target = "signac.project.Project.import_from"
+    properties = ("C16",)
+
+    def cases(self):
+        return [{"sync": k} for k in ("None", "True", "options")]
+
+    def make_ctx(self, case):
+        ctx = super().make_ctx(case)
+        g = ctx.ghost
+        g["ev"] = []
+
+        def imp(interp, b):
+            g["ev"].append(("import_into_project", dict(b)))
+            return [(STok("src"), STok("dst"))]
+        ctx.callee_contracts[f"{IE}.import_into_project"] = imp
+
+        class STmp(Sym):
+            def sym_getattr(self, ex, name):
+                if name == "import_from":
+                    def f(*a, **k):
+                        g["ev"].append(("tmp.import_from", a, k))
+                        return g["tmp_ret"]
+                    return NativeStub(f, "tmp_project.import_from")
+                raise Unsupported(f"tmp_project.{name}")
+        g["tmp"] = STmp()
+        g["tmp_ret"] = STok("mapping-of-the-temporary-import")
+
+        class CM(Sym):
+            def sym_with(self, interp, body):
+                g["ev"].append(("enter-temporary-project",))
+                try:
+                    return body(g["tmp"])
+                finally:
+                    g["ev"].append(("exit-temporary-project",))
+        ctx.callee_contracts["signac.project.Project.temporary_project"] = lambda interp, b: CM()
+
+        def sync(interp, b):
+            g["ev"].append(("self.sync", dict(b)))
+        ctx.callee_contracts["signac.project.Project.sync"] = sync
+        return ctx
+
+    def setup(self, interp, case):
+        from pyvc.interp import Obj
+        rp = interp.repo
+        rp.load("signac.project")
+        o = Obj(rp.classes["signac.project.Project"])
+        origin, schema, ct = STok("origin"), STok("schema"), STok("copytree")
+        g = interp.ctx.ghost
+        g["opts"] = {"strategy": STok("strategy"), "doc_sync": STok("doc_sync")}
+        sync = {"None": None, "True": True, "options": dict(g["opts"])}[case["sync"]]
+        return [o], {"origin": origin, "schema": schema, "sync": sync, "copytree": ct}, {"o": o, "origin": origin, "schema": schema, "ct": ct}
+
+    def post(self, interp, case, pre, outcome):
+        ex, g = interp.ex, interp.ctx.ghost
+        ev = g["ev"]
+        if outcome[0] != "return":
+            ex.oblige(self.oname("raises:nothing_of_its_own"), False, note=repr(outcome[1]))
+            return
+        r = outcome[1]
+        if case["sync"] == "None":
+            ok = len(ev) == 1 and ev[0][0] == "import_into_project" and ev[0][1].get("origin") is pre["origin"] and ev[0][1].get("project") is pre["o"] \
+                and ev[0][1].get("schema") is pre["schema"] and ev[0][1].get("copytree") is pre["ct"] and isinstance(r, dict) and len(r) == 1
+            ex.oblige(self.oname("ensures:a_plain_import_goes_into_this_project_with_schema_and_copytree,_its_pairs_returned_as_a_mapping"), z3.BoolVal(bool(ok)), note=repr(ev)[:300])
+            return
+        names = [e[0] for e in ev]
+        ok = names == ["enter-temporary-project", "tmp.import_from", "self.sync", "exit-temporary-project"] and r is g["tmp_ret"]
+        ex.oblige(self.oname("ensures:with_sync_the_data_is_imported_into_a_temporary_project_which_is_then_synchronised_into_this_one"), z3.BoolVal(bool(ok)), note=repr(names))
+        if ok:
+            a, k = ev[1][1], ev[1][2]
+            ex.oblige(self.oname("ensures:the_temporary_import_uses_the_origin_and_the_schema"), z3.BoolVal(not a and k.get("origin") is pre["origin"] and k.get("schema") is pre["schema"] and set(k) <= {"origin", "schema"}))
+            b = ev[2][1]
+            flat = {x: y for x, y in b.items() if x not in ("self", "kwargs")}
+            flat.update(b.get("kwargs") or {})
+            want = dict(g["opts"]) if case["sync"] == "options" else {}
+            ex.oblige(self.oname("ensures:synchronised_from_the_temporary_project_into_this_one_with_the_given_options"),
+                      z3.BoolVal(b.get("self") is pre["o"] and flat.get("other") is g["tmp"] and all(flat.get(x) is y for x, y in want.items())
+                                 and all(v is None for x, v in flat.items() if x not in want and x != "other")), note=repr(flat)[:300])
+
+
+CONTRACTS += [PrepareImport(), ImportIntoProject(), ProjectImportFrom()]
